@@ -146,8 +146,24 @@ func runC11(c *core.Ctx, res *core.Result) {
 		res.Inconclusive = "cannot create writer: " + err.Error()
 		return
 	}
+	// entries are handed over in scratch buffers that are overwritten as soon as the call returns, the way a
+	// bulk loader reuses its buffers (nil stays nil: it marks a deletion)
+	kbuf, vbuf := make([]byte, 0, 64), make([]byte, 0, 64)
 	for _, e := range ents {
-		if err := w.AddWithSequence(e.K, e.V, e.Seq); err != nil {
+		kbuf = append(kbuf[:0], e.K...)
+		var vb []byte
+		if e.V != nil {
+			vbuf = append(vbuf[:0], e.V...)
+			vb = vbuf[:len(e.V):len(e.V)]
+		}
+		err := w.AddWithSequence(kbuf, vb, e.Seq)
+		for i := range kbuf {
+			kbuf[i] ^= 0x5a
+		}
+		for i := range vbuf {
+			vbuf[i] ^= 0xa5
+		}
+		if err != nil {
 			res.Violate("write_error", fmt.Sprintf("AddWithSequence(%s) failed on an ascending entry set: %v", kv.Q(e.K), err), map[string]string{"key_class": class})
 			return
 		}
